@@ -94,6 +94,8 @@ class C13:
             cfg = E.sample_cfg(name, rc, tier, small=True)
         if name == "pdp":
             cfg["kw"]["force_start_at_depot"] = False
+        if use_am:
+            cfg = E.for_network(cfg)
         env = E.make_env(cfg)
         b = rc.choice([1, 2, 2, 3])
         rows = E.gen_rows(env, cfg, b, st.torch_seed("instances"))
